@@ -145,6 +145,24 @@ def big():
         yield f"groups-labels:{n}", prog("exp", ("uid",), ("ret", gs)), [{"uid": i} for i in range(24)]
         gs2 = tuple(((i if i % 3 == 0 else (i + 0.5 if i % 3 == 1 else f"s, {i}")), "1") for i in range(n))
         yield f"groups-mixed:{n}", prog("exp", ("uid",), ("ret", gs2)), [{"uid": i} for i in range(24)]
+    # beyond the stated bounds but cheap: flat lists whose length, not nesting, grows the parse stack
+    for n in (120, 250):
+        c = chain(n, "f", "r", None)
+        yield f"chain:{n}", prog("exp", ("uid",), c), [{"uid": 1, "f": k} for k in (0, n - 1, n)]
+    for n in (128, 300):
+        yield f"groups:{n}", prog("exp", ("uid",), ("ret", tuple((f"g{i}", "1") for i in range(n)))), [{"uid": i} for i in range(6)]
+    for n in (200, 600, 2000):
+        yield f"tuple-len:{n}", prog("exp", ("uid",), ("if", ("cmp", ("id", "f"), "in", ("tup", tuple(("lit", k) for k in range(n)))), T, F)), \
+            [{"uid": 1, "f": k} for k in (0, n - 1, n, 0.5)]  # fmt: skip
+    for n in (200, 600):
+        yield f"splitters:{n}", prog("exp", tuple(f"s{k}" for k in range(n)), ("ret", (("A", "1"), ("B", "1")))), [{f"s{k}": (k + j) for k in range(n)} for j in range(2)]
+    big = 10**310 + 7
+    for lit, vals in ((big, [big, big + 1, 1e308, float("inf")]), (-big, [-big, 0]), (2**64, [2**64, float(2**64)]), (10**100, [10**100, 1e100])):
+        for op in ("==", "<", ">="):
+            yield f"bigint:{op}", prog("exp", ("uid",), ("if", ("cmp", ("id", "f"), op, ("lit", lit)), T, F)), [{"uid": 1, "f": v} for v in vals]
+            yield f"bigint-left:{op}", prog("exp", ("uid",), ("if", ("cmp", ("lit", lit), op, ("id", "f")), T, F)), [{"uid": 1, "f": v} for v in vals]
+    yield "bigint:group", prog("exp", ("uid",), ("ret", ((big, "1"), (-big, "1")))), [{"uid": i} for i in range(8)]
+    yield "bigint:tuple", prog("exp", ("uid",), ("if", ("cmp", ("id", "f"), "in", ("tup", (("lit", big), ("lit", 1)))), T, F)), [{"uid": 1, "f": big}, {"uid": 1, "f": 1}, {"uid": 1, "f": 2}]
     for n in (2, 5, 10, 20, 40, 60):
         for op in ("and", "or"):
             p = None
